@@ -139,7 +139,7 @@ def check_execution(cfg, choices, obs, rec):
     names = [n for n, _ in obs['script']]
     sig = None
     if 'HORIZON' in names:
-        return viol(rec, cfg, choices, 'C09:unbounded resending (horizon reached)', 'at most n+1 sends', names)
+        return viol(rec, cfg, choices, 'C09:request sent more than n+1 times', 'at most n+1 sends', names)
     sends, sleeps, final = ref_run(cfg, names)
     st = effective_strategy(cfg)
     if final is None or sends != len(names):
@@ -182,6 +182,9 @@ def check_execution(cfg, choices, obs, rec):
 
 
 def viol(rec, cfg, choices, sig, expected, observed):
+    if cfg.get('later_request'):
+        sig += ' [second request of one long-lived client]'
+        cfg = {k: v for k, v in cfg.items() if k != 'later_request'}
     rec.violation(sig, dict(cfg=cfg, choices=list(choices)), expected=expected, observed=observed)
     return 'bad:' + sig
 
@@ -215,6 +218,7 @@ def gen_cases(ctx):
         ('override-less', S(2), S(0)), ('override-codes', S(2, codes='one'), S(2, codes='empty', excs='empty')),
         ('disabled', S(2), None),
     ]
+    yield from gen_repeat(ctx)
     for name, cs, rs in placements:
         for rk in ('single', 'batch', 'notification'):
             for kind in ('sync', 'async'):
@@ -222,11 +226,28 @@ def gen_cases(ctx):
                            client_strategy=cs, request_strategy=rs)
 
 
+def gen_repeat(ctx):
+    """(D) two requests in a row through one long-lived client / one long-lived strategy object"""
+    drop = ['code_listed2', 'level_listed2', 'exc_listed2', 'exc_sub', 'exc_unlisted', 'code_unlisted', 'level_unlisted']
+    for n in (1, 2) if ctx.quick else (1, 2, 3):
+        for spec in (PERIODIC, dict(family='exponential', base=1.0, factor=2.0), dict(family='fibonacci', multiplier=1.0, max_value=None)):
+            for rk in ('single', 'batch', 'notification'):
+                for kind in ('sync', 'async'):
+                    st = dict(attempts=n, codes='one', excs='one', backoff=spec)
+                    yield dict(part='D', kind=kind, request=rk, via='call', drop=drop, client_strategy=st, repeat=2)
+                    yield dict(part='D', kind=kind, request=rk, via='send', drop=drop, client_strategy=None, request_strategy=st, repeat=2)
+
+
 def run_case(cfg, rec):
     leaves = 0
     summary = []
     for choices, obs in explore_choices(lambda env: cr.execute(cfg, env), max_exec=200000):
         r = check_execution(cfg, choices, obs, rec)
+        for later in obs.get('later', ()):
+            # a later request made through the same long-lived client (and strategy object) is judged on its own
+            r2 = check_execution(dict(cfg, later_request=True), choices, later, rec)
+            if isinstance(r2, str) and r2.startswith('bad:'):
+                r = r2
         leaves += 1
         rec.transitions += len(obs['script'])
         rec.outcomes[str(r) if isinstance(r, str) else 'sends=%d sleeps=%d final=%s' % r] += 1
